@@ -167,6 +167,25 @@ impl Case {
     }
 }
 
+/// Runs `f` on every item on 16 worker threads (each with its own 1-thread rayon pool). Used only
+/// in replay mode, to rebuild the tables that the skipped cases would have produced.
+fn par_for_each<C: Sync>(items: &[C], f: impl Fn(&C) + Sync) {
+    let cursor = std::sync::atomic::AtomicUsize::new(0);
+    std::thread::scope(|scope| {
+        for _ in 0..16 {
+            scope.spawn(|| {
+                vcore::in_pool(1, || loop {
+                    let i = cursor.fetch_add(1, std::sync::atomic::Ordering::SeqCst);
+                    if i >= items.len() {
+                        break;
+                    }
+                    let _ = vcore::catch(|| f(&items[i]));
+                })
+            });
+        }
+    });
+}
+
 fn cpu_s() -> f64 {
     let mut ru: libc::rusage = unsafe { std::mem::zeroed() };
     unsafe { libc::getrusage(libc::RUSAGE_SELF, &mut ru) };
@@ -809,11 +828,23 @@ fn main() {
             }
             Err(p) => {
                 o.count("k-panic", 1);
-                o.viol(Viol::new(format!("{}:sizing-panic", c.op()), format!("building the circuit without witnesses panicked: {p}"), json!({"op": c.opkey()})));
+                let class: String = p.chars().filter(|ch| !ch.is_ascii_digit()).take(48).collect::<String>().split_whitespace().collect::<Vec<_>>().join("-");
+                let scope = match &c.kind {
+                    Kind::F(f, _) => f.short(),
+                    Kind::B(_) => "big",
+                };
+                o.viol(Viol::new(format!("{scope}:sizing-panic:{class}"), format!("building the circuit for {} without witnesses panicked: {p}", c.op()), json!({"op": c.opkey()})));
             }
         }
         o
     });
+    if cx.is_replay() {
+        par_for_each(&kreq, |(kk, c)| {
+            if let Ok(k) = vgad::min_k(c) {
+                ks.lock().unwrap().insert(kk.clone(), k);
+            }
+        });
+    }
     let ks = ks.into_inner().unwrap();
     let kof = |c: &Case| ks.get(&c.kkey()).copied();
     let cases: Vec<(String, Case)> = cases.into_iter().filter(|(_, c)| kof(c).is_some()).collect();
@@ -871,6 +902,19 @@ fn main() {
         out.sample = Some(json!({"case": c.key(), "k": k, "honest": run.outcome.name(), "assignments": run.n_assign, "op_assignment_range": [s, e], "exposed": run.flat.len()}));
         out
     });
+    if cx.is_replay() {
+        // rebuild the table of honest runs that the later phases select from
+        par_for_each(&cases, |(key, c)| {
+            if hon.lock().unwrap().contains_key(key) || !c.expect_sat() {
+                return;
+            }
+            let run = vgad::run_once(c, kof(c).unwrap(), vec![], false);
+            let (s, e) = marks();
+            if run.outcome == Outcome::Sat && c.judge(&run.ins, &run.outs) == Judgement::Holds {
+                hon.lock().unwrap().insert(key.clone(), Hon { n: run.n_assign, op_range: (s, e), exposed: run.flat.len() });
+            }
+        });
+    }
     let hon = hon.into_inner().unwrap();
     let hon_s = t_hon.elapsed().as_secs_f64();
 
@@ -955,88 +999,23 @@ fn main() {
         out
     });
 
-    // ---- phase 3: instance binding and exposed-value lies on selected operand tuples per
-    // operation (these depend on the circuit's wiring, not on the operand values)
-    let mut bcases: Vec<(String, Case)> = vec![];
-    {
-        // cost of a binding case ~ 5 verifications per exposed position: quick takes every operation
-        // with at most 40 exposed positions and one representative per (field, operation name)
-        // of the wider ones; thorough takes up to four tuples of every operation
-        let max_exposed = tier.pick(40usize, 100_000usize);
-        let rep_max_exposed = tier.pick(600usize, 100_000usize);
-        let want: &[usize] = if tier.is_thorough() { &[1, 4, 6, 9] } else { &[4] };
-        let mut per_op: HashMap<String, Vec<(&String, &Case, usize)>> = HashMap::new();
-        let mut order: Vec<String> = vec![];
-        for (key, c) in &cases {
-            let Some(h) = hon.get(key) else { continue };
-            let e = per_op.entry(c.kkey()).or_default();
-            if e.is_empty() {
-                order.push(c.kkey());
-            }
-            e.push((key, c, h.exposed));
-        }
-        let mut wide_seen = std::collections::HashSet::new();
-        let mut variants: HashMap<String, usize> = HashMap::new();
-        for ok in &order {
-            let v = &per_op[ok];
-            if !tier.is_thorough() {
-                let (name, max_variants) = match &v[0].1.kind {
-                    Kind::F(f, op) => (format!("{}.{}", f.short(), op.name()), 1),
-                    Kind::B(op) => (op.name(), 2),
-                };
-                let cnt = variants.entry(name).or_default();
-                *cnt += 1;
-                if *cnt > max_variants {
-                    continue;
-                }
-            }
-            // big circuits (2048-bit modular exponentiation ...) only get the honest run
-            if kof(v[0].1).unwrap() > 12 {
-                continue;
-            }
-            let mut picks: Vec<usize> = want.iter().map(|w| w - 1).filter(|i| *i < v.len()).collect();
-            if picks.is_empty() {
-                picks.push(0);
-            }
-            for p in picks {
-                let (key, c, exposed) = v[p];
-                if exposed > max_exposed {
-                    let name = match &c.kind {
-                        Kind::F(f, op) => format!("{}.{}", f.short(), op.name()),
-                        Kind::B(op) => op.name(),
-                    };
-                    if exposed > rep_max_exposed || !wide_seen.insert(name) {
-                        continue;
-                    }
-                }
-                bcases.push((key.clone(), c.clone()));
-            }
-        }
-    }
-    cpu_marks.push(("binding", cpu_s()));
-    cx.run_cases("binding", &bcases, |c| {
-        let mut out = CaseOut::batch();
-        let _ = vgad::explore_honest(c, kof(c).unwrap(), &mut out);
-        out
-    });
-
-    // ---- phase 4: 1-deviation faults in propagate mode
+    // ---- phase 3: 1-deviation faults in propagate mode
     let limb_faults = |l: u32| -> Vec<(&'static str, Fault)> { vec![("+base", Fault::AddPow2(l)), ("-base", Fault::SubPow2(l))] };
     let base_faults: Vec<(&'static str, Fault)> = {
         let f = vgad::default_faults(seed);
         if tier.is_thorough() {
             f
         } else {
-            f.into_iter().filter(|(n, _)| ["+1", "-1", "zero", "random"].contains(n)).collect()
+            f.into_iter().filter(|(n, _)| ["+1", "zero", "random"].contains(n)).collect()
         }
     };
     // Operand tuples: one per operation (two in thorough), taken a few steps down the diagonal so
     // that the operands are not 0/1/2 (which take the library's shortcuts). Quick sweeps one
     // variant per (field, operation name) (BigUint: two width variants per operation name).
-    let budget_runs: u64 = tier.pick(16_000, 1_000_000);
+    let budget_runs: u64 = tier.pick(9_000, 1_000_000);
     let mut chosen: Vec<(&String, &Case, &Hon)> = vec![];
     {
-        let want = tier.pick(1usize, 2usize);
+        let want = 1usize;
         let mut by_op: HashMap<String, Vec<(&String, &Case, &Hon)>> = HashMap::new();
         let mut order: Vec<String> = vec![];
         for (key, c) in &cases {
@@ -1085,18 +1064,17 @@ fn main() {
             }
         }
     }
-    let n_faults_per_idx = (base_faults.len() + 2) as u64;
+    let n_faults_per_idx = (base_faults.len() + tier.pick(1, 2)) as u64;
     // the index space: the operation's own assignments [a, b); the assignments of the inputs and of
     // the exposure are swept in full for the `Assign` operations (they are the same regions for
     // every operation) and, in thorough, at 4x the stride elsewhere
     let is_assign = |c: &Case| matches!(&c.kind, Kind::F(_, FOp::Assign) | Kind::B(BOp::Assign(_)));
-    let small: u64 = tier.pick(40, 400);
+    let small: u64 = tier.pick(40, 40);
     let op_len = |c: &Case, h: &Hon| if is_assign(c) { h.n } else { h.op_range.1 - h.op_range.0 };
     // no single operation takes more than `cap_per_op` indices
     let cap_per_op: u64 = tier.pick(200, 2500);
     let total_idx: u64 = chosen.iter().map(|(_, c, h)| op_len(c, h)).sum();
-    let total_small: u64 = chosen.iter().map(|(_, c, h)| op_len(c, h)).filter(|n| *n <= small).sum();
-    let stride: u64 = ((total_idx - total_small) * n_faults_per_idx).div_ceil(budget_runs.saturating_sub(total_small * n_faults_per_idx).max(1)).max(1);
+    let stride: u64 = (total_idx * n_faults_per_idx).div_ceil(budget_runs).max(1);
     let mut fcases: Vec<(String, (Case, Vec<u64>, Vec<(&'static str, Fault)>))> = vec![];
     let mut swept: u64 = 0;
     for (key, c, h) in &chosen {
@@ -1116,10 +1094,14 @@ fn main() {
         }
         swept += idxs.len() as u64;
         let mut faults = base_faults.clone();
-        match &c.kind {
-            Kind::F(f, _) => faults.extend(limb_faults(f.spec().log2_base)),
-            Kind::B(_) => faults.extend(limb_faults(BIG_LOG2_BASE)),
+        let mut lf = match &c.kind {
+            Kind::F(f, _) => limb_faults(f.spec().log2_base),
+            Kind::B(_) => limb_faults(BIG_LOG2_BASE),
+        };
+        if !tier.is_thorough() {
+            lf.truncate(1);
         }
+        faults.extend(lf);
         for (ci, chunk) in idxs.chunks(8).enumerate() {
             fcases.push((format!("{key}#{ci}"), ((*c).clone(), chunk.to_vec(), faults.clone())));
         }
@@ -1127,7 +1109,7 @@ fn main() {
     cx.note(format!(
         "fault phase: {} operation variants x {} operand tuple(s); {} assignment indices inside the operations, stride {} (coarser for operations with more than {} assignments so that none takes more than that many indices; every index for operations with <= {} assignments; input-assignment and exposure regions: every index in the Assign operations{}); {} indices swept x {} faults",
         chosen.iter().map(|(_, c, _)| c.opkey()).collect::<std::collections::HashSet<_>>().len(),
-        tier.pick(1, 2),
+        1,
         total_idx,
         stride,
         cap_per_op * stride,
@@ -1136,6 +1118,11 @@ fn main() {
         swept,
         n_faults_per_idx
     ));
+    if std::env::var("C05_DEBUG_KEYS").is_ok() {
+        for (k, _) in fcases.iter().take(3) {
+            eprintln!("FAULT-CASE-KEY faults/{k}");
+        }
+    }
     cpu_marks.push(("faults", cpu_s()));
     cx.run_cases("faults", &fcases, |(c, idxs, faults)| {
         let mut out = CaseOut::batch();
@@ -1153,6 +1140,73 @@ fn main() {
                 }
             }
         }
+        out
+    });
+
+    // ---- phase 4: instance binding and exposed-value lies on selected operand tuples per
+    // operation (these depend on the circuit's wiring, not on the operand values)
+    let mut bcases: Vec<(String, Case)> = vec![];
+    {
+        // cost of a binding case ~ 5 verifications per exposed position: quick takes every operation
+        // with at most 40 exposed positions and one representative per (field, operation name)
+        // of the wider ones; thorough takes one tuple of every operation variant with at most 700 exposed positions
+        let max_exposed = tier.pick(40usize, 700usize);
+        let rep_max_exposed = tier.pick(300usize, 700usize);
+        let want: &[usize] = &[4];
+        let mut per_op: HashMap<String, Vec<(&String, &Case, usize)>> = HashMap::new();
+        let mut order: Vec<String> = vec![];
+        for (key, c) in &cases {
+            let Some(h) = hon.get(key) else { continue };
+            let e = per_op.entry(c.opkey()).or_default();
+            if e.is_empty() {
+                order.push(c.opkey());
+            }
+            e.push((key, c, h.exposed));
+        }
+        let mut wide_seen = std::collections::HashSet::new();
+        let mut variants: HashMap<String, usize> = HashMap::new();
+        for ok in &order {
+            let v = &per_op[ok];
+            if !tier.is_thorough() {
+                let (name, max_variants) = match &v[0].1.kind {
+                    Kind::F(f, op) => (format!("{}.{}", f.short(), op.name()), 1),
+                    Kind::B(op) => (op.name(), 2),
+                };
+                let cnt = variants.entry(name).or_default();
+                *cnt += 1;
+                if *cnt > max_variants {
+                    continue;
+                }
+            }
+            // big circuits (2048-bit modular exponentiation ...) only get the honest run
+            if kof(v[0].1).unwrap() > 12 {
+                continue;
+            }
+            let mut picks: Vec<usize> = want.iter().map(|w| w - 1).filter(|i| *i < v.len()).collect();
+            if picks.is_empty() {
+                picks.push(0);
+            }
+            for p in picks {
+                let (key, c, exposed) = v[p];
+                if exposed > max_exposed {
+                    let name = match &c.kind {
+                        Kind::F(f, op) => format!("{}.{}", f.short(), op.name()),
+                        Kind::B(op) => op.name(),
+                    };
+                    if exposed > rep_max_exposed || !wide_seen.insert(name) {
+                        continue;
+                    }
+                }
+                bcases.push((key.clone(), c.clone()));
+            }
+        }
+    }
+    // widest first (the cost of a case is proportional to its exposed positions)
+    bcases.sort_by_key(|(key, _)| std::cmp::Reverse(hon.get(key).map(|h| h.exposed).unwrap_or(0)));
+    cpu_marks.push(("binding", cpu_s()));
+    cx.run_cases("binding", &bcases, |c| {
+        let mut out = CaseOut::batch();
+        let _ = vgad::explore_honest(c, kof(c).unwrap(), &mut out);
         out
     });
 
@@ -1208,12 +1262,13 @@ fn main() {
          bits/bytes) x widths {{1,8,95,96,97,192,193{}}} x values {{0,1,2^w-1,2^(w-1),2^96-1,2^96,2^96+1,2^192-1,2^192,2^192+1,seeded}}; per case: honest run \
          (satisfiable with the reference result recomputed from the decoded exposed inputs, or unsatisfiable if out of domain); per operation \
          (selected operand tuples): every single-position edit of the exposed vector, every exposed value changed with its copy cycle, \
-         advice-assignment indices (stride {} inside the operation) x faults {{{}, +-2^LOG2_BASE}} in propagate mode; every non-empty subset of the inputs given in their second (+m) well-formed representation, injected consistently with the range checks (secp256k1 fields); all \
+         advice-assignment indices (stride {} inside the operation) x faults {{{}, +2^LOG2_BASE{}}} in propagate mode; every non-empty subset of the inputs given in their second (+m) well-formed representation, injected consistently with the range checks (secp256k1 fields); all \
          pairs of the operation's own assignments x {{+1,zero}}^2 for operations with few assignments. A case is one (field|biguint, operation, parameters, inputs, configuration); \
          evaluations count MockProver verdicts.",
         if tier.is_thorough() { ",1024,2048" } else { "" },
         stride,
         base_faults.iter().map(|f| f.0).collect::<Vec<_>>().join(","),
+        if tier.is_thorough() { ", -2^LOG2_BASE" } else { "" },
     ));
     cpu_marks.push(("end", cpu_s()));
     cx.note(format!(
